@@ -25,8 +25,22 @@ package engine
 //@   ensures[anything-else-is-refused-with-a-type-error] !(r is Variable) && !(r is Integer) ==> result != nil && isTypeErr(result, validTypeInteger, n)
 
 //@ -- stream: a stream term or an alias of this interpreter's stream table
+//@ func (*streams).lookup
+//@   property C19
+//@   requires ss != nil
+//@   modifies nothing
+//@   ensures[the-stream-registered-under-the-alias-if-any] result1 == has(ss.aliases, a) && (result1 ==> result0 == ss.aliases[a]) && (!result1 ==> result0 == nil)
+
+//@ -- streamsValid: the data invariant of stream terms and of the alias table (an input invariant of the stream
+//@ -- built-ins: a *Stream term is never the nil pointer, an alias never names the nil pointer; streams.add is only
+//@ -- ever given streams that exist)
+//@ spec fun streamsValid(vm *VM, env *Env, t Term) bool = vm != nil && (forall a Atom :: has(vm.streams.aliases, a) ==> vm.streams.aliases[a] != nil) &&
+//@     (resolve(env, t) is *Stream ==> (resolve(env, t) as *Stream) != nil)
+
 //@ func stream
 //@   property C19
+//@   requires[stream-terms-and-aliases-name-streams-that-exist] streamsValid(vm, env, streamOrAlias)
+//@   ensures[no-error-means-a-stream] result1 == nil ==> result0 != nil
 //@   modifies nothing
 //@   let r = resolve(env, streamOrAlias)
 //@   bind s, found = (*streams).lookup#1
@@ -38,13 +52,13 @@ package engine
 //@   ensures[a-stream-term-is-itself] r is *Stream ==> result0 == (r as *Stream) && result1 == nil
 //@   ensures[a-known-alias-is-the-stream-it-names] r is Atom && called(found) && found ==> result0 == s && result1 == nil
 //@   ensures[everything-else-is-an-error-and-no-stream] !(r is *Stream) && !(r is Atom && called(found) && found) ==> result0 == nil && result1 != nil
-//@   ensures err == nil ==> result != nil
 
 //@ -- appendUniqNewAtom: the names of an op/3 call, each once, in the order given
 //@ func appendUniqNewAtom
 //@   property C18
-//@   modifies nothing
-//@   loop 1 invariant[nothing-seen-so-far-equals-the-new-name] -1 <= $i && $i < len(slice) && forall j int :: 0 <= j && j <= $i ==> slice[j] != elem
-//@   ensures[a-name-already-there-is-not-added-again] (exists j int :: 0 <= j && j < len(slice) && slice[j] == elem) ==> result == slice
-//@   ensures[a-new-name-is-added-at-the-end] (forall j int :: 0 <= j && j < len(slice) ==> slice[j] != elem) ==> len(result) == len(slice) + 1 && result[len(slice)] == elem &&
-//@       forall j int :: 0 <= j && j < len(slice) ==> result[j] == slice[j]
+//@   modifies elems(slice)
+//@   loop 1 invariant[nothing-seen-so-far-equals-the-new-name] -1 <= $i && $i < len(slice) && forall j int :: triggered(slice[j], 0 <= j && j <= $i ==> slice[j] != elem)
+//@   ensures[the-names-so-far-keep-their-places-and-at-most-one-is-added] (len(result) == len(slice) || len(result) == len(slice) + 1)
+//@   ensures[the-names-so-far-keep-their-places] forall j int :: triggered(result[j], 0 <= j && j < len(slice) ==> result[j] == slice[j])
+//@   ensures[a-name-is-added-at-the-end-only-if-it-is-new] len(result) == len(slice) + 1 ==> result[len(slice)] == elem && forall j int :: triggered(slice[j], 0 <= j && j < len(slice) ==> slice[j] != elem)
+//@   ensures[a-name-already-there-is-not-added-again] len(result) == len(slice) ==> result == slice && exists j int :: 0 <= j && j < len(slice) && slice[j] == elem
